@@ -460,6 +460,8 @@ def onObs (t : T) (x : Obs) : T :=
         -- the cause of a timer callback is an arming whose deadline has been reached
         let t := t.flagIf (d > t.now || !a.armed) .C01
           s!"timer {k} was called back without a cause: at {t.now}, deadline {d}, {if a.armed then "armed" else "holding no arming"}"
+        let t := t.flagIf (a.armed && a.armedInDisp) .C01
+          s!"timer {k} was called back for an expiry collected before its current arming was made: the arming that expired had been cancelled"
         let t := t.flagIf (a.armed && a.armedInDisp) .C05
           s!"timer {k} fired in the dispatch whose wait ended before its current arming was made: the expiry belongs to an arming that was cancelled"
         let t := match t.lastDeadlineCb with
